@@ -143,6 +143,23 @@ Body(name) ==
        [rows |-> 331, wit |-> 1281, ops |-> <<
           Op1("witness", "0x123456789abcdef", "s"),
           [op |-> "mul_generator", s |-> "s", pt |-> [name |-> "G"], out |-> "R"] >>]
+    [] name = "mds" ->           \* linear layer whose coefficients are the entries 1/5 .. 1/13 of the
+                                 \* width-5 Hades MDS matrix (the built-in constants of the compressed
+                                 \* format, several of which occur more than once in the matrix)
+       [rows |-> 3, wit |-> 6, ops |-> <<
+          Op1("witness", 3, "a"), Op1("witness", 4, "b"), Op1("witness", 5, "c"),
+          [op |-> "gate_add", w |-> <<"a", "b", 0, "c">>, out |-> "s1",
+           q |-> [l |-> "0x609b60c54d5893118005895c0806deaf1b1e08ad2aa94ca9d555555480000001",
+                  r |-> "0x211f5460e751918257c7624b7077624aaa362edc49241a48db6db6db24924925",
+                  f |-> "0x656ff268c469cd9f2cd29d07086d9d04a945ef829ffe907f1fffffff20000001"]],
+          [op |-> "gate_add", w |-> <<"a", "b", 0, "c">>, out |-> "s2",
+           q |-> [l |-> "0x19c308bd25b13848eef068e557794c72f62a247271c6bf1c38e38e38aaaaaaab",
+                  r |-> "0x22c74bcc2615a595a8f7c0cf3616f401991f4acdb332b532e66666661999999a",
+                  f |-> "0x6963af62e003892a5d1d50074e93217934daf23145cff68aba2e8ba200000001"]],
+          [op |-> "gate_add", w |-> <<"a", "b", 0, "c">>, out |-> "s3",
+           q |-> [l |-> "0x6a44840c3b7b082cd99fb0b208d45b5a376dd6581553d4546aaaaaa9c0000001",
+                  r |-> "0x6217dc5a0f85429f8dce7bb808267bb5bd02ed3d9d88753a3b13b13a3b13b13c",
+                  f |-> "0x458e97984c2b4b2b51ef819e6c2de803323e959b66656a65cccccccc33333334"]] >>]
     [] name = "var" ->           \* variable-base scalar multiplication
        [rows |-> 2019, wit |-> 2523, ops |-> <<
           Op1("witness", "0x1234567", "s"),
@@ -435,10 +452,15 @@ LabelHex(l) ==
   LET byte(b) == HexDigits[(b \div 16) + 1] \o HexDigits[(b % 16) + 1]
       F[i \in 0..Len(l)] == IF i = 0 THEN "" ELSE F[i - 1] \o byte(l[i])
   IN F[Len(l)]
+\* byte positions edited: all of a short label; of a long one the ends, the 8-byte
+\* boundaries, the middle and the positions around the 64th byte
+EditPos(l) ==
+  IF Len(l) <= 16 THEN 1..Len(l)
+  ELSE {i \in {1, 8, 9, 13, Len(l) \div 2, Len(l) - 8, Len(l) - 7, Len(l) - 1, Len(l), 64, 65, 66} : i \in 1..Len(l)}
 LabelEdits(l) ==
   IF "label" \in VerifierEditKinds
-  THEN { [kind |-> "label-byte", label |-> [l EXCEPT ![i] = (@ + 1) % 256]] : i \in 1..Len(l) }
-       \cup { [kind |-> "label-bit7", label |-> [l EXCEPT ![i] = (@ + 128) % 256]] : i \in 1..Len(l) }
+  THEN { [kind |-> "label-byte", label |-> [l EXCEPT ![i] = (@ + 1) % 256]] : i \in EditPos(l) }
+       \cup { [kind |-> "label-bit7", label |-> [l EXCEPT ![i] = (@ + 128) % 256]] : i \in EditPos(l) }
        \cup { [kind |-> "label-extend", label |-> Append(l, 0)],
               [kind |-> "label-truncate", label |-> SubSeq(l, 1, Len(l) - 1)],
               [kind |-> "label-empty", label |-> <<>>] }
